@@ -299,7 +299,15 @@ class C02(Prop):
         if tier != "thorough":
             r = random.Random(7)
             rest = r.sample(rest, 900)
-        return inline + rest
+        # every value of a group is validated, whatever its position (a bad value that is not the last one)
+        grp = []
+        for cmd in ("DEFAULT_DELAY", "DEFAULTDELAY", "DELAY", "ALT", "CTRL", "ALTCHAR", "WHITESPACE"):
+            good, bad = {"ALT": ("a", "ab"), "CTRL": ("c", "xy"), "ALTCHAR": ("65", "12345"), "WHITESPACE": ("1", "100")}.get(cmd, ("100", "-5"))
+            for vals in ([bad, good], [good, bad, good], [bad, bad, good], ["0-5" if bad == "-5" else bad, good]):
+                grp.append(comp(cmd + "\n" + "\n".join("    " + v for v in vals)))
+                grp.append(comp(cmd + " " + vals[0] + "\n" + "\n".join("    " + v for v in vals[1:])))
+                grp.append(comp("VAR v 0-5\nREPEAT i,1\n    " + cmd + "\n" + "\n".join("        " + (v if v != "-5" else "v") for v in vals)))
+        return inline + rest + grp
 
     def generate(self, rng, n, tier):
         cases = []
@@ -461,6 +469,14 @@ class C03(Prop):
                 out.append({"kind": "tab", "text": "\n".join(p + "STRING l%d" % j for j, p in enumerate(vec))})
         out.append({"kind": "tab", "text": "\n    STRING a"})
         out.append({"kind": "tab", "text": "\n\n  \n\tSTRING a\nSTRING b"})
+        # no code line is silently dropped: a line nested deeper under commands that take no nested block
+        # (IGNORE, simple commands with an argument group) is an error in every indent unit, never skipped
+        for unit in ("\t", " ", "    ", " \t"):
+            for head in ("IGNORE", "STRING", "FOO", "DELAY"):
+                for blank in ("", "\n"):
+                    t = "STRING before\n%s\n%sRAW one%s\n%s%sRAW nested\n%sRAW two\nSTRING after" % (head, unit, blank, unit, unit, unit)
+                    out.append(comp(t))
+        out.append({"kind": "raw", "lines": ["STRING before", "IGNORE", ["RAW one", ["RAW nested"], "RAW two"], "STRING after"], "opts": {}})
         return out
 
     def oracle(self, c, i):
@@ -729,6 +745,11 @@ class C04(Prop):
         for env in ({"F": 5}, {"T": 1, "TRU": 2}, {"FALSEY": 3, "TRUEST": 4}, {"F": 5, "FA": 6, "FAL": 7, "FALS": 8}):
             for e, v in [("FALSE == FALSE", True), ("TRUE", True), ("TRUE != FALSE", True), ("FALSE", False), ("(TRUE) == TRUE", True), ("!(FALSE)", True)]:
                 out.append({"kind": "tok", "vars": dict(env), "expr": e, "ref": common.val_rec(v)})
+        for e, v in [("1 == 5 < 2", True), ("5 < 2 == 1", False), ("3 != 3 >= 0", True), ("0 * (1+1)", 0)]:
+            out.append({"kind": "tok", "vars": {}, "expr": e, "ref": common.val_rec(v)})
+        # both operands are evaluated: an error in the right operand is reported whatever the left one is
+        for e in ["0 * (1/0)", "(2-2) * (7 // 0)", "0.0 * (5 % 0)", "FALSE * (1/0)", "0 * nosuch"]:
+            out.append({"kind": "tok", "vars": {}, "expr": e, "ref": "div0"} if "nosuch" not in e else {"kind": "tok", "vars": {}, "expr": e})
         # a sign immediately followed by the decimal point
         for e, v in [("-.5", -0.5), ("2 * -.25", -0.5), ("1--.5", 1.5), ("(-.5)+1", 0.5), ("-.5+1", 0.5), ("3*-2", -6), ("1-.5", 0.5), (".5", 0.5), ("-5.", -5)]:
             out.append({"kind": "tok", "vars": {}, "expr": e, "ref": common.val_rec(v)})
@@ -873,6 +894,9 @@ class C05(RefProp):
         for cond, truthy in [("1/2", True), ("0-0.25", True), ("x", True), ("0.0", False), ("1/2-0.5", False), ("\"0\"", True), ("\"\"", False), ("0-1", True)]:
             out.append(refcase("VAR x 0-0.25\nIF %s\n    STRING yes\nELSE\n    STRING no" % cond, ["STRING yes" if truthy else "STRING no"], {"x": -0.25}))
             out.append(refcase("VAR x 0-0.25\nIF FALSE\n    STRING a\nELIF %s\n    STRING yes\nELSE \n    STRING no" % cond, ["STRING yes" if truthy else "STRING no"], {"x": -0.25}))
+        # all comparison operators share one precedence level and associate to the left
+        for cond, truthy in [("1 == 5 < 2", True), ("5 < 2 == 1", False), ("3 != 3 >= 0", True), ("2 > 1 == TRUE", True), ("1 == 1 != 0 < 1", False)]:
+            out.append(refcase("IF %s\n    STRING first\nELSE\n    STRING second" % cond, ["STRING first" if truthy else "STRING second"]))
         for arms in range(1, 5):
             for truth in itertools.product([False, True], repeat=arms):
                 for els in (False, True):
@@ -905,6 +929,9 @@ class C06(RefProp):
 
     def corpus(self, tier):
         out = []
+        # the counter name is checked whatever the count is (also 0 iterations, also a computed 0)
+        for head in ("REPEAT 1x,0", "FOR $c,1-1", "REPEAT a-b,0", "VAR z 0\nREPEAT 9q,z", "REPEAT i,2\n    REPEAT 1x,i"):
+            out.append(comp(head + "\n    STRING body\nSTRING after"))
         # BREAK and PAUSE are keys, not loop control: their lines are emitted and the loop goes on
         out.append(refcase("REPEAT 3\n    BREAK\n    STRING x", ["BREAK", "STRING x"] * 3))
         out.append(refcase("REPEAT i,2\n    IF i==0\n        break\n    PAUSE\n    $STRING i", ["BREAK", "PAUSE", "STRING 0", "PAUSE", "STRING 1"]))
@@ -962,6 +989,10 @@ class C07(RefProp):
             for libdef in ("FUNC f\n    STRING new", "FUNC f a\n    $STRING \"new\"+a"):
                 out.append(props2.fcase({("main.txt",): "FUNC f\n    STRING old\nRUN f\n%s lib\nRUN f\nRUN f 1" % imp, ("lib.txt",): libdef}, ("main.txt",)))
                 out.append(props2.fcase({("main.txt",): "FUNC f\n    STRING old\nIF TRUE\n    %s lib\n    RUN f\nRUN f" % imp, ("lib.txt",): libdef}, ("main.txt",)))
+        # RETURN leaves the loop at once: the count is not evaluated again after it
+        for t in ["FUNC f k\n    REPEAT k\n        VAR k 0-1\n        RETURN\n    STRING never\nRUN f 2\nSTRING after", "FUNC f k\n    REPEAT i,k\n        IF i==1\n            VAR k \"x\"\n            RETURN\n        $STRING i\nRUN f 3\nSTRING after",
+                  "VAR n 2\nREPEAT n\n    VAR n 30000\n    RETURN\nSTRING never", "VAR n 2\nREPEAT n\n    STRING once\n    VAR n 0-5\n    BREAKLOOP\nSTRING after"]:
+            out.append(comp(t))
         # booleans stay booleans through argument lists
         for t in ["FUNC two a,b\n    $STRING a\n    $STRING \"v:\"+b\nRUN two TRUE,2\nRUN two 1==2,FALSE", "VAR flag FALSE\nFUNC g flag,n\n    PASS\nRUN g TRUE,1\n$STRING flag"]:
             out.append(comp(t))
@@ -1004,6 +1035,10 @@ class C08(RefProp):
                     out.append({"kind": "comp", "files": {"main.txt": "\n".join(main), "sub.txt": sub}, "main": "main.txt", "opts": {}})
                     fn = ["VAR x 1", "FUNC f", "    " + imp + " sub", "RUN f", "$STRING x"]
                     out.append({"kind": "comp", "files": {"main.txt": "\n".join(fn), "sub.txt": sub}, "main": "main.txt", "opts": {}})
+        # an assignment to an outer variable survives when the branch that made it leaves by BREAK / CONTINUE / RETURN
+        for t in ["VAR a 1\nREPEAT 2\n    IF TRUE\n        VAR a 50\n        BREAKLOOP\n$STRING a", "VAR hits 0\nREPEAT i,2\n    IF TRUE\n        IF i>=0\n            VAR hits hits+1\n            CONTINUELOOP\n$STRING hits",
+                  "VAR state \"init\"\nFUNC f\n    IF TRUE\n        VAR state \"done\"\n        RETURN\nRUN f\n$STRING state", "VAR a 1\nIF FALSE\n    PASS\nELSE\n    VAR a 2\n    RETURN\nSTRING never"]:
+            out.append(comp(t))
         # the system variable follows the same block rules: set inside blocks at any depth, read afterwards
         for t in ["IF TRUE\n    DEFAULT_DELAY 5\n$STRING $DEFAULT_DELAY", "FUNC f\n    REPEAT 2\n        IF TRUE\n            DEFAULTDELAY $DEFAULT_DELAY+7\nRUN f\n$STRING $DEFAULT_DELAY",
                   "DEFAULT_DELAY 3\nWHILE w,w<2\n    DEFAULT_DELAY $DEFAULT_DELAY+1\n    $STRING $DEFAULT_DELAY\n$STRING $DEFAULT_DELAY", "REPEAT 3\n    DEFAULT_DELAY 9\n    BREAKLOOP\n$STRING $DEFAULT_DELAY",
@@ -1043,6 +1078,9 @@ class C18(RefProp):
             out.append(F(files, ("m.txt",), {"stack_limit": L}))
         for t in ["FUNC f\n    PRINT a\n\n    PRINT b\n  \n    $PRINT 1+1\nRUN f", "IF TRUE\n\n    PRINT x\n\n\n    PRINT y", "REPEAT 2\n    PRINT\n        g1\n\n        g2\n\n    PRINT after"]:
             out.append(comp(t))
+        # the nested-list input form numbers lines as the text form does (also after several nested blocks)
+        out.append({"kind": "raw", "lines": ["PRINT a", "REPEAT 2", ["PRINT in"], "PRINT after", "IF TRUE", ["PRINT x", "IF TRUE", ["PRINT y"]], "PRINT end", "PRINT", ["g1", "g2"], "$PRINT 1+1"], "opts": {}})
+        out.append({"kind": "raw", "lines": ["FUNC f", ["PRINT inf"], "RUN f", "PRINT p2", "WHILE w,w<1", ["PRINT inw"], "PRINT last"], "opts": {}})
         # imported files end their lines at "\n" only, like the main file: prints after a form feed / U+2028 keep
         # their line numbers and their text
         for ch in ("\x0c", "\u2028", "\x0b", "\x85"):
